@@ -3,6 +3,9 @@ package main
 import (
 	"context"
 	"fmt"
+	"github.com/enfein/mieru/v3/pkg/cipher"
+	"github.com/enfein/mieru/v3/pkg/common"
+	"github.com/enfein/mieru/v3/pkg/protocol"
 	"io"
 	"math/rand"
 	"net"
@@ -205,6 +208,13 @@ func c10SocksCase(c *Ctx) *Result {
 				drain(a)
 			})
 		case "client-dialer":
+			if it%3 == 2 {
+				// the real consumer: a client whose UDP underlay runs through a
+				// well-behaved-looking upstream SOCKS5 proxy that relays hostile
+				// (also oversized) datagrams back
+				c10UpstreamUDP(r, res)
+				continue
+			}
 			// socks5.ClientDialer against a hostile upstream proxy on loopback
 			l, err := net.Listen("tcp", "127.0.0.1:0")
 			if err != nil {
@@ -388,4 +398,71 @@ func init() {
 		}
 		return 42
 	}})
+}
+
+// c10UpstreamUDP: mieru client -> (UDP ASSOCIATE at an upstream SOCKS5 proxy) -> server.
+// The proxy completes the association properly and then relays hostile datagrams.
+func c10UpstreamUDP(r *rand.Rand, res *Result) {
+	l, err := net.Listen("tcp", "127.0.0.1:0")
+	if err != nil {
+		return
+	}
+	defer l.Close()
+	relay, err := net.ListenUDP("udp4", &net.UDPAddr{IP: net.IPv4(127, 0, 0, 1)})
+	if err != nil {
+		return
+	}
+	defer relay.Close()
+	rport := relay.LocalAddr().(*net.UDPAddr).Port
+	go func() {
+		cn, err := l.Accept()
+		if err != nil {
+			return
+		}
+		defer cn.Close()
+		cn.SetDeadline(time.Now().Add(3 * time.Second))
+		b := make([]byte, 512)
+		cn.Read(b)
+		cn.Write([]byte{5, 0})
+		cn.Read(b)
+		cn.Write([]byte{5, 0, 0, 1, 127, 0, 0, 1, byte(rport >> 8), byte(rport)})
+		time.Sleep(1500 * time.Millisecond)
+	}()
+	go func() {
+		b := make([]byte, 4096)
+		for k := 0; k < 3; k++ {
+			relay.SetReadDeadline(time.Now().Add(2 * time.Second))
+			_, from, err := relay.ReadFromUDP(b)
+			if err != nil {
+				return
+			}
+			hdr := []byte{0, 0, 0, 1, 93, 184, 216, 34, 0, 53}
+			for _, n := range []int{0, 1, 71, 72, 1400, 1490, 1491, 1500, 1501, 2000, 9000, 65000} {
+				relay.WriteToUDP(append(append([]byte(nil), hdr...), hostileBytes(r, n)...), from)
+				p := make([]byte, n)
+				r.Read(p)
+				relay.WriteToUDP(append(append([]byte(nil), hdr...), p...), from)
+			}
+			res.Obs["upstream_proxy_datagram_batches"]++
+		}
+	}()
+	d := socks5.NewClientDialer(l.Addr().String(), nil, true)
+	d.Timeout = time.Second
+	m := protocol.NewMux(true).
+		SetClientUserNamePassword("alice", cipher.HashPassword([]byte("alice-secret"), []byte("alice"))).
+		SetClientMultiplexFactor(0).
+		SetPacketDialer(d)
+	m.SetEndpoints([]protocol.UnderlayProperties{protocol.NewUnderlayProperties(1400, common.PacketTransport, nil, &net.UDPAddr{IP: net.IPv4(93, 184, 216, 34), Port: 53})})
+	ctx, cancel := context.WithTimeout(context.Background(), 2*time.Second)
+	cn, err := m.DialContext(ctx)
+	cancel()
+	if err == nil {
+		cn.SetDeadline(time.Now().Add(800 * time.Millisecond))
+		cn.Write([]byte("hello through the upstream proxy"))
+		b := make([]byte, 100)
+		cn.Read(b)
+		cn.Close()
+	}
+	time.Sleep(300 * time.Millisecond)
+	m.Close()
 }
